@@ -249,6 +249,19 @@ theorem end_to_end_json_partial (smart : Bool) (T : TParser) (hT : jsonT smart =
       T.parseClean raw fuel = .ok (.elem (nm "E") false (.list [r.1.toVal])) :=
   json_end_to_end smart T hT s raw hraw
 
+/-- **A `str` is cut into lines at `'\n'` and nowhere else** (`_Tokenizer.tokenize`: `text.split('\n')`, the separator
+is read from the source by the translator): a text without `'\n'` is one line whatever other characters it holds —
+form feed, vertical tab, a lone `\r`, `\x1c`–`\x1e`, `\x85`, `U+2028`, `U+2029` do not end a line, so an end-of-line
+comment is skipped as a whole; no line contains the separator; joining the lines with it gives the text back. (What the
+regular expression matches inside a line stays data: the lexemes.) -/
+theorem lines_cut_at_newline_only :
+    Gen.C05.lineSep = '\n' ∧
+    (∀ s : List Char, Gen.C05.lineSep ∉ s → strLines s = [rstrip s]) ∧
+    (∀ s : List Char, ∀ l ∈ splitOn Gen.C05.lineSep s, Gen.C05.lineSep ∉ l) ∧
+    (∀ s : List Char, List.intercalate [Gen.C05.lineSep] (splitOn Gen.C05.lineSep s) = s) :=
+  ⟨by decide, fun s h => by simp [strLines, splitOn_no_sep _ s h], fun s => splitOn_mem_no_sep _ s,
+   fun s => splitOn_join _ s⟩
+
 /-- **Squashing around container items.** A squashable symbol (all its rules have at most one symbol) that is not
 in `keep_symbols` disappears around a container item: cleaning `name[x]` with `for_container=True` is cleaning `x`
 (so chains such as `LIST_ITEM[VALUE[WORD]]` collapse to the innermost element, whose value becomes the entry). A kept
@@ -462,5 +475,7 @@ example : (match jsonT true with
           decide (a = nm "a" ∧ k = nm "k" ∧ b = nm "b")
         | _ => false)
     | .error _ => false) = true := by decide +kernel
+
+example : strLines "[a, // page 1\x0cb, c,\n d]  ".toList = ["[a, // page 1\x0cb, c,".toList, " d]".toList] := by decide
 
 end C05
